@@ -84,6 +84,7 @@ func (x *Exec) readAt(st *State, view, size string, p Val, pt types.Type, off st
 		n := f.fresh("rn", SInt)
 		f.assume(tAnd(tCmp("<=", "0", n), tCmp("<=", n, pl)))
 		x.havocReachable(f, p)
+		x.markFailed(f, "read")
 		outs = append(outs, Outcome{f, TupleV{TV{SInt, n}, x.freshErr(f, "rderr")}})
 	}
 	// A: outside the declared size
